@@ -4,6 +4,7 @@ import (
 	"fmt"
 	"sort"
 	"strings"
+	"time"
 )
 
 // ---------------------------------------------------------------------------------------------
@@ -142,8 +143,14 @@ func (o *c03) Step(r *StepRec) []Violation {
 		if !ok {
 			return false, 0
 		}
-		inst := b.DisabledTime.UnixNano() + o.w.cfg.ArbitrationNs + o.w.cfg.ComplaintNs
-		return !b.Available && stakeOf(b.Deposit) > 0 && r.TimeNs >= inst, inst
+		// time.Time arithmetic (two separate additions): the sum of the two periods may not fit in one Duration
+		instT := b.DisabledTime.Add(time.Duration(o.w.cfg.ArbitrationNs)).Add(time.Duration(o.w.cfg.ComplaintNs))
+		now := time.Unix(0, r.TimeNs)
+		inst := instT.UnixNano()
+		if instT.Year() > 2250 {
+			inst = 1<<63 - 1 // beyond what UnixNano can express: far in the future
+		}
+		return !b.Available && stakeOf(b.Deposit) > 0 && !now.Before(instT), inst
 	}
 	if a.Kind == KRefundDep {
 		bk := bkey(a.Service, a.Provider)
